@@ -227,7 +227,7 @@ pub fn checks(tier: Tier) -> Vec<Check> {
         Check {
             name: "C13.batch-small".into(),
             strategy: batch(vec![0, 1, 2, 3, 8, 33]),
-            cases: tier.scale(4_000, 20),
+            cases: tier.scale(12_000, 8),
             exec: Box::new(crate::ops::exec),
             oracle: Box::new(crate::mops::oracle),
             classify: Box::new(classify),
@@ -238,7 +238,7 @@ pub fn checks(tier: Tier) -> Vec<Check> {
         Check {
             name: "C13.batch-cancellation-pairs".into(),
             strategy: cancellation(),
-            cases: tier.scale(2_000, 20),
+            cases: tier.scale(6_000, 8),
             exec: Box::new(crate::ops::exec),
             oracle: Box::new(oracle_cancellation),
             classify: Box::new(|r: &Req, _: &Resp| { let n = r.a[2].len() / 64; if n > 64 { vec!["cancellation-pair-n>64"] } else { vec!["cancellation-pair"] } }),
@@ -249,7 +249,7 @@ pub fn checks(tier: Tier) -> Vec<Check> {
         Check {
             name: "C13.batch-large".into(),
             strategy: batch(vec![94, 95, 96, 190, 250, 400]),
-            cases: tier.scale(12, 30),
+            cases: tier.scale(24, 15),
             exec: Box::new(crate::ops::exec),
             oracle: Box::new(crate::mops::oracle),
             classify: Box::new(classify),
